@@ -498,6 +498,21 @@ class MViews(Monitor):
             for f in ("executionArn", "stateMachineArn", "name"):
                 if rec.get(f) != d.get(f):
                     self._flag(w, arn, "record_vs_notification", "%s: record %r, notification %r" % (f, rec.get(f), d.get(f)), what=f)
+            # the last history event of a terminal execution agrees with the record and the notification
+            if rec.get("status") in TERMINAL and engs:
+                h = engs[0].execution_history.get(arn)
+                if h:
+                    last = dict(list(h)[-1])
+                    if last.get("type") == "ExecutionSucceeded":
+                        hv = ("SUCCEEDED", last.get("executionSucceededEventDetails", {}).get("output"), None)
+                    elif last.get("type") == "ExecutionFailed":
+                        dd = last.get("executionFailedEventDetails", {})
+                        hv = ("FAILED", None, dd.get("error"))
+                    else:
+                        hv = (last.get("type"), None, None)
+                    rv = (rec.get("status"), rec.get("output") if rec.get("status") == "SUCCEEDED" else None, rec.get("error") if rec.get("status") == "FAILED" else None)
+                    if hv != rv:
+                        self._flag(w, arn, "history_vs_record", "last history event %r, record %r" % (hv, rv), what=str(last.get("type")))
             # the stored record must still hold epoch seconds once the broadcast is over
             for f in ("startDate", "stopDate"):
                 rv, nv = rec.get(f), d.get(f)
@@ -603,7 +618,10 @@ def _loose_eq(g, w):
                 return False
         for k in w:
             if k == "Cause" and isinstance(g[k], str) and isinstance(w[k], str):
-                if not g[k].endswith(w[k]):
+                # the engine's own boiler-plate ("... (entered at the event id #N). ") is not part of the compared output
+                import re as _re
+                strip = lambda t: _re.sub(r" \(entered at the event id #\d+\)", "", t)
+                if not strip(g[k]).endswith(strip(w[k])):
                     return False
             elif not _loose_eq(g[k], w[k]):
                 return False
@@ -757,7 +775,23 @@ class MCrash(Monitor):
             self.term.setdefault(arn, []).append([st, d.get("output"), d.get("error")])
     def on_op(self, w, op):
         if op["op"] == "deliver" and op.get("redelivered") and op.get("arn") and op.get("queue", "").startswith("asl_workflow_events"):
-            self.redelivered_events.add(op.get("message_id"))
+            # only a redelivered *Task* state event can be "treated as already requested"
+            for conn in w.broker.connections:
+                if not conn.is_open:
+                    continue
+                for ch in conn.channels:
+                    ent = ch.unacked.get(op["tag"])
+                    if ent and ent[1].props.message_id == op.get("message_id"):
+                        try:
+                            ctx = ent[1].meta()[1]["context"]
+                            for sname, sarn in w.machines.items():
+                                if sarn == ctx["StateMachine"]["Id"]:
+                                    dfn = w.sc["machines"][sname]["definition"]
+                                    st = MTime._find(dfn, (ctx.get("State") or {}).get("Name") or dfn.get("StartAt"))
+                                    if isinstance(st, dict) and st.get("Type") == "Task":
+                                        self.redelivered_events.add(op.get("message_id"))
+                        except Exception:
+                            pass
         if op["op"] == "publish" and op.get("routing_key") in w.workers:
             self.requested.add((op.get("correlation_id") or "").split(".")[0])
         if op["op"] == "ack" and op.get("site") and "log_and_acknowledge_orphaned_responses" in op["site"][1]:
@@ -818,6 +852,7 @@ class MTime(Monitor):
         self.execs = {}      # arn -> deadline
         self.hist = {}
         self.flagged = set()
+        self.blocking_late = set()
 
     def _defs(self, w, sm_arn_):
         for sname, sarn in w.machines.items():
@@ -884,6 +919,8 @@ class MTime(Monitor):
             if not isinstance(st, dict):
                 return
             entered = float(rfc3339.parse(ctx["State"]["EnteredTime"]))
+            if st.get("Type") in ("Wait", "Task") and arn in self.execs and now > self.execs[arn] + self.TOL:
+                self.blocking_late.add(arn)
             if st.get("Type") == "Wait":
                 data = obj.get("data")
                 try:
@@ -952,7 +989,8 @@ class MTime(Monitor):
             if exec_timeout and t < dl - self.TOL:
                 self.flag(w, "execution_timeout_early", "execution timed out %.6f s before StartTime+TimeoutSeconds" % (dl - t), arn, None)
             if t > dl + self.TOL and not (d.get("error") == "States.Timeout"):
-                self.flag(w, "execution_outlived_deadline", "execution ended %s %.6f s after StartTime+TimeoutSeconds" % (st, t - dl), arn, None, first=st)
+                what = "a-Task-or-Wait-was-entered-after-the-deadline" if arn in self.blocking_late else "only-non-blocking-states-ran-late"
+                self.flag(w, "execution_outlived_deadline", "execution ended %s %.6f s after StartTime+TimeoutSeconds (%s)" % (st, t - dl, what), arn, None, first=st, what=what)
             if exec_timeout and t > dl + 61 + self.TOL:
                 self.flag(w, "execution_timeout_late", "execution timed out %.6f s after its deadline" % (t - dl), arn, None)
 
